@@ -14,7 +14,7 @@ META = {
             "description length has a closed form (parameter-free trees; trees affine in their parameters with independent basis functions; "
             "one-parameter trees of the form h(x) + t(a0) g(x), detected numerically from the labels with an mpmath tree evaluator) the value "
             "NLL(theta_ML) + parameter code (analytic Hessian, snapping rule) + k ln(n_sym) + sum ln|c| is computed from the labels and the data "
-            "alone; the top-ranked description length may exceed none of them by more than 2e-2. (3) The planted truth's unique function has a row "
+            "alone; the top-ranked description length may exceed none of them by more than 2e-2 (plus 2e-7 relative for the 8-digit text files). (3) The planted truth's unique function has a row "
             "with a finite description length. Trees without a closed form (parameters inside powers, exponentials, denominators with x) are only "
             "covered by (1) and (3).",
     "note": "Bounded, not a proof. Where the snapping rule is ambiguous (parameter within 10% of one precision step; snapped parameter at which the "
